@@ -236,4 +236,144 @@ theorem pack_fuel_mono (S : SE B DM) (max : Nat) : ∀ (fuel : Nat) (content : B
         simp only [henc] at h ⊢
         exact ih _ _ _ h f' (by omega)
 
+
+/-! ## Two record sources that agree wherever both answer give the same data -/
+
+theorem collect_eq_ok {ε α : Type} : ∀ (xs : List (Except ε α)) (l : List α), collect xs = .ok l → xs = l.map Except.ok
+  | [], l, h => by simp [collect] at h; subst h; rfl
+  | .error e :: _, l, h => by simp [collect] at h
+  | .ok a :: rest, l, h => by
+    simp only [collect] at h
+    cases hr : collect rest with
+    | error e => simp [hr] at h
+    | ok as =>
+      simp only [hr, Except.ok.injEq] at h
+      subst h
+      simp [collect_eq_ok rest as hr]
+
+theorem filterMap_toOption_ok {ε α : Type} (l : List α) :
+    (l.map (Except.ok (ε := ε))).filterMap Except.toOption = l := by
+  induction l with
+  | nil => rfl
+  | cons a as ih => simp [Except.toOption, ih]
+
+theorem filterMap_congr' {α β : Type} (f g : α → Option β) : ∀ (l : List α), (∀ x ∈ l, f x = g x) →
+    l.filterMap f = l.filterMap g
+  | [], _ => rfl
+  | x :: xs, h => by
+    simp only [List.filterMap_cons, h x List.mem_cons_self]
+    rw [filterMap_congr' f g xs (fun y hy => h y (List.mem_cons_of_mem _ hy))]
+
+/-- `get` and `get'` never answer the same address with different content -/
+def Agree (get get' : Nat → Except GetErr (Chunk B)) : Prop :=
+  ∀ a c c', get a = .ok c → get' a = .ok c' → c.value = c'.value
+
+theorem fetch_round_agree (S : SE B DM) (L : Laws S) (get get' : Nat → Except GetErr (Chunk B)) (hag : Agree get get')
+    (code code' : List Nat) (dm : DM) (d d' : B)
+    (h : fetchFromDataMap S get code dm = .ok d) (h' : fetchFromDataMap S get' code' dm = .ok d') : d = d' := by
+  unfold fetchFromDataMap at h h'
+  simp only at h h'
+  cases hc : collect ((permute code (S.infos dm).zipIdx).map (taskResult get)) with
+  | error e => simp [hc] at h
+  | ok l =>
+    cases hc' : collect ((permute code' (S.infos dm).zipIdx).map (taskResult get')) with
+    | error e => simp [hc'] at h'
+    | ok l' =>
+      simp only [hc] at h
+      simp only [hc'] at h'
+      have e1 := collect_eq_ok _ _ hc
+      have e2 := collect_eq_ok _ _ hc'
+      -- the chunk lists as filterMaps over the tasks
+      have hl : l = (permute code (S.infos dm).zipIdx).filterMap (Except.toOption ∘ taskResult get) := by
+        rw [← List.filterMap_map, e1, filterMap_toOption_ok]
+      have hl' : l' = (permute code' (S.infos dm).zipIdx).filterMap (Except.toOption ∘ taskResult get') := by
+        rw [← List.filterMap_map, e2, filterMap_toOption_ok]
+      -- every task succeeded under both sources
+      have hall : ∀ t ∈ (S.infos dm).zipIdx, ∃ y, taskResult get t = .ok y := by
+        intro t ht
+        have : taskResult get t ∈ (permute code (S.infos dm).zipIdx).map (taskResult get) :=
+          List.mem_map_of_mem ((permute_perm code _).mem_iff.2 ht)
+        rw [e1] at this
+        obtain ⟨y, _, hy⟩ := List.mem_map.1 this
+        exact ⟨y, hy.symm⟩
+      have hall' : ∀ t ∈ (S.infos dm).zipIdx, ∃ y, taskResult get' t = .ok y := by
+        intro t ht
+        have : taskResult get' t ∈ (permute code' (S.infos dm).zipIdx).map (taskResult get') :=
+          List.mem_map_of_mem ((permute_perm code' _).mem_iff.2 ht)
+        rw [e2] at this
+        obtain ⟨y, _, hy⟩ := List.mem_map.1 this
+        exact ⟨y, hy.symm⟩
+      have hsame : (S.infos dm).zipIdx.filterMap (Except.toOption ∘ taskResult get)
+          = (S.infos dm).zipIdx.filterMap (Except.toOption ∘ taskResult get') := by
+        apply filterMap_congr'
+        intro t ht
+        obtain ⟨y, hy⟩ := hall t ht
+        obtain ⟨y', hy'⟩ := hall' t ht
+        simp only [Function.comp, hy, hy']
+        unfold taskResult at hy hy'
+        cases hg : get t.1 with
+        | error e => simp [hg] at hy
+        | ok c =>
+          cases hg' : get' t.1 with
+          | error e => simp [hg'] at hy'
+          | ok c' =>
+            simp only [hg, Except.ok.injEq] at hy
+            simp only [hg', Except.ok.injEq] at hy'
+            rw [← hy, ← hy', hag t.1 c c' hg hg']
+      have hperm : l.Perm l' := by
+        rw [hl, hl']
+        exact ((permute_perm code _).filterMap _).trans (hsame ▸ ((permute_perm code' _).filterMap _).symm)
+      rw [L.dec_perm dm l l' hperm] at h
+      cases hd : S.dec dm l' with
+      | none => simp [hd] at h
+      | some x =>
+        simp only [hd, Except.ok.injEq] at h h'
+        rw [← h, ← h']
+
+theorem fetch_loop_agree (S : SE B DM) (L : Laws S) (get get' : Nat → Except GetErr (Chunk B)) (hag : Agree get get') :
+    ∀ (f f' : Nat) (codes codes' : List (List Nat)) (lvl : Bool × DM) (d d' : B),
+    fetchLoop S get f codes lvl = .ok d → fetchLoop S get' f' codes' lvl = .ok d' → d = d' := by
+  intro f
+  induction f with
+  | zero => intro f' codes codes' lvl d d' h; simp [fetchLoop] at h
+  | succ f ih =>
+    intro f' codes codes' lvl d d' h h'
+    cases f' with
+    | zero => simp [fetchLoop] at h'
+    | succ f' =>
+      obtain ⟨additional, dm⟩ := lvl
+      simp only [fetchLoop] at h h'
+      cases hr : fetchFromDataMap S get (codes.headD []) dm with
+      | error e => rw [hr] at h; cases h
+      | ok x =>
+        cases hr' : fetchFromDataMap S get' (codes'.headD []) dm with
+        | error e => rw [hr'] at h'; cases h'
+        | ok x' =>
+          have hx := fetch_round_agree S L get get' hag _ _ dm x x' hr hr'
+          subst hx
+          simp only [hr] at h
+          simp only [hr'] at h'
+          cases additional with
+          | false =>
+            simp only [Bool.false_eq_true, ↓reduceIte, Except.ok.injEq] at h h'
+            rw [← h, ← h']
+          | true =>
+            simp only [↓reduceIte] at h h'
+            cases hu : unpackedLevel S x with
+            | none => rw [hu] at h; cases h
+            | some lvl' =>
+              simp only [hu] at h h'
+              exact ih f' _ _ lvl' d d' h h'
+
+theorem fetch_chunk_agree (S : SE B DM) (L : Laws S) (get get' : Nat → Except GetErr (Chunk B)) (hag : Agree get get')
+    (f f' : Nat) (codes codes' : List (List Nat)) (bytes : B) (d d' : B)
+    (h : fetchFromDataMapChunk S get f codes bytes = .ok d) (h' : fetchFromDataMapChunk S get' f' codes' bytes = .ok d') :
+    d = d' := by
+  unfold fetchFromDataMapChunk at h h'
+  cases hu : S.unwrap bytes with
+  | none => simp [hu] at h
+  | some lvl =>
+    simp only [hu] at h h'
+    exact fetch_loop_agree S L get get' hag f f' codes codes' lvl d d' h h'
+
 end SafeNet.Proofs.SelfEnc
